@@ -249,6 +249,23 @@ func sliceKinds() *slice {
 		modes: lib.AllModes, maxN: map[string]int{"quick": 5, "thorough": 6}}
 }
 
+// membership: `in` / `not in` against LITERAL ranges and arrays (the shapes the optimizer rewrites), with left operands
+// that contain calls at any depth (index expressions, arithmetic, properties of call results, '#').
+// TStrArr stands for "literal collection of ints" here, so that only literals appear on the right.
+func sliceMembership() *slice {
+	rules := []*Rule{
+		Var("I", TInt), Lit("1", TInt, 1), Lit("2", TInt, 2), Var("A", TIntArr), Var("O", TObj), Hash(TInt),
+		{Op: "lit", Arg: "1..3", Out: TStrArr, Fmt: "1..3", Extra: []int{1, 2, 3}}, {Op: "lit", Arg: "3..1", Out: TStrArr, Fmt: "3..1", Extra: []int{}},
+		Lit("[1, 2]", TStrArr, []int{1, 2}),
+		Bin("in", TInt, TStrArr, TBool), Bin("not in", TInt, TStrArr, TBool),
+		Call("Id", TInt, TInt), Call("GetInt", TInt), Method(TObj, "Get", TInt, false), Method(TObj, "Plus", TInt, false, TInt),
+		Index(TIntArr, TInt, TInt), Prop(TObj, "N", TInt, false), Bin("+", TInt, TInt, TInt), Un("-", TInt, TInt),
+		Builtin("count", TIntArr, TBool, TInt), Builtin("filter", TIntArr, TBool, TIntArr), Builtin("map", TIntArr, TInt, TIntArr), Len(TIntArr),
+	}
+	return &slice{name: "membership", g: NewGrammar(rules), tops: []NT{nt(TBool), nt(TInt), nt(TIntArr)}, modes: lib.AllModes,
+		maxN: map[string]int{"quick": 6, "thorough": 7}}
+}
+
 // calls: the same name called with different argument counts in one expression (variadic functions, an
 // environment function and a method of the same name), and map literals with computed keys.
 func sliceCalls() *slice {
